@@ -103,7 +103,7 @@ def plan(tier, seed):
     specs = []
     for i in range(6):
         specs.append({"mode": "default", "rseed": seed * 1000 + i, "lens": list(range(i, 601, 6)),
-                      "big": 3 if tier == "quick" else 40})
+                      "big": 3 if tier == "quick" else 40, "optimize": i == 5})
     if tier == "quick":
         lay = [(a, b) for a in range(1, 21) for b in range(1, 21)] + \
               [(a, b) for a in (1, 2, 255, 256, 128, 17, 64, 100) for b in (1, 2, 3, 4, 255, 256, 16, 7)] + \
@@ -123,7 +123,7 @@ def plan(tier, seed):
 def minimums(tier):
     return {"hexdump.calls": 5000, "hexdump.default_layout_roundtrips": 2000, "parse.format_checks": 6000,
             "parse.short_last_line": 1500, "parse.with_comments": 800, "cli.hex_checked": 40, "layouts.checked": 400, "parse.beyond_64k": 20,
-            "parse.dump_file_checks": 500}
+            "parse.dump_file_checks": 500, "parse.lines_as_generator": 500, "parse.lines_as_file": 300, "parse.lines_as_tuple": 500}
 
 
 def finish(m, tier):
@@ -202,8 +202,17 @@ def run(spec, ctx):
             ctx.current = {"format": name, "len": n, "lines": lines[:6], "lower": lower, "stripped_last": strip}
             ctx.case(name + repr(lines), n >= 1, sample={"format": name, "lines": lines[:3]} if i < 2 else None)
             ctx.count("parse.format_checks")
+            # parse() takes "lines": any iterable of strings - a list, a tuple, a generator, an open text file
+            import io
+            how = rng.choice(["list", "list", "tuple", "generator", "iterator", "file"])
+            if how == "file" and not all(ln.endswith("\n") for ln in lines):
+                how = "generator"
+            arg = {"list": lambda: list(lines), "tuple": lambda: tuple(lines), "generator": lambda: (ln for ln in lines),
+                   "iterator": lambda: iter(lines), "file": lambda: io.StringIO("".join(lines))}[how]()
+            ctx.count("parse.lines_as_" + how)
+            ctx.current["lines_passed_as"] = how
             try:
-                back = bytes(hx.parse(lines, fmt))
+                back = bytes(hx.parse(arg, fmt))
             except Exception as e:
                 back = repr(e)
             if name != "default" and n > 0 and i % 5 == 0:
@@ -228,8 +237,8 @@ def run(spec, ctx):
                     ctx.violation("C13/dump-file/" + name, "a dump file of %d bytes in the %s format (%d leading comment/blank lines) gave "
                                   "back %s" % (n, name, len(pre), ("%d bytes" % len(captured[0])) if captured else "no data"), data=d[:300])
             if back != d:
-                ctx.violation("C13/parse-format/" + name, "parse() of %d bytes rendered in the %s format returned %s" %
-                              (n, name, ("%d bytes" % len(back)) if isinstance(back, bytes) else back), data=d[:300])
+                ctx.violation("C13/parse-format/" + name, "parse() of %d bytes rendered in the %s format (lines passed as a %s) returned %s" %
+                              (n, name, how, ("%d bytes" % len(back)) if isinstance(back, bytes) else back), data=d[:300])
         return
     # peltool -x
     u = pm.Uniq(spec["shard"] * 10_000_000)
